@@ -279,11 +279,24 @@ def case(rec, pvl, dialect, key):
         rec.count("odl_bad_name_cases")
     before = clone(gm.module)
     wit = {"dialect": dialect, "cfg": cfg, "seed": key}
+    enc = make_encoder(pvl, dialect, cfg)
     try:
-        text = make_encoder(pvl, dialect, cfg).encode(gm.module)
+        text = enc.encode(gm.module)
     except (ValueError, TypeError):
         rec.count(f"refused[{dialect}]")
         rec.case((dialect, key), False)
+        # continued use of the same encoder object after the refusal: whatever
+        # it returns now is a text an encoder returned, and has to obey the rules
+        try:
+            second = clone(before)
+            text = enc.encode(second)
+        except Exception:
+            rec.count("second_attempt_refused_too")
+            return
+        rec.count("texts_from_a_second_attempt_after_a_refusal")
+        wit["text"] = text[:1500]
+        wit["second_attempt_by_the_same_encoder_after_a_refusal"] = True
+        check_text(rec, dialect, cfg, before, second, text, wit)
         return
     except Exception as e:
         rec.case((dialect, key), False)
@@ -359,7 +372,8 @@ def finish_kwargs(rec, tier):
         "rule[odl-name-form]", "rule[symbol-on-one-line]",
         "rule[units-after-number]", "rule[pds3-no-tab]",
         "wrapped_or_multiline_statements", "single_quoted_strings",
-        "units_expressions", "pds3_group_written_as_object", "odl_bad_name_cases"]
+        "units_expressions", "pds3_group_written_as_object", "odl_bad_name_cases",
+        "second_attempt_refused_too"]
     return dict(required_counters=req,
                 assumptions=["scanner knows only quotes, brackets, <...>, line "
                              "ends and '='; character sets from the "
